@@ -257,6 +257,11 @@ class CircuitSerializer(serializer.Serializer):
                     isinstance(op.untagged, cirq.ClassicallyControlledOperation)
                     and isinstance(op.untagged.without_classical_controls(), cirq.CircuitOperation)
                 ):
+                    if op.tags:
+                        raise ValueError(
+                            'Tags on a CircuitOperation cannot be serialized '
+                            f'(the message has no field for them): {op.tags!r}'
+                        )
                     op_pb = moment_proto.circuit_operations.add()
                     self._serialize_circuit_op(
                         op.untagged.without_classical_controls(),  # type: ignore[arg-type]
